@@ -11,7 +11,7 @@ ID = "C16"
 OPT_QUICK_ALL = True      # every partition also in a child interpreter started with -O
 LEVEL = "model_checking"
 TECHNIQUE = "explicit enumeration of all attach / re-attach histories (bounded length) over simulated targets of every peripheral device type and qualifier on both transports, judged by a device-type -> command-set reference table and a differential comparison with a fresh facade"
-RULE = ("depth 1: all 32 peripheral device types x 8 qualifiers x {SG_IO, iSCSI} x {SCSI(dev), facade(dev) re-attach}; all 32 types x attach made from an except block / a finally block during propagation / a generator resumed by throw() (first attach and re-attach); all 32 types x caller-made device objects (ordinary, a list of seen commands - empty when new -, __bool__ False, __len__ 0) attached by constructor / call / call after another device; all 32 types x facade subclasses with their own constructor (one that only stores the device, one with another signature) attached and re-attached by call; all 32 types x ADDITIONAL LENGTH {00,1F,5A,5B,5C,9F,FF} (first attach and re-attach); all 32 types x every single bit of INQUIRY bytes 1-7 and 56 set (the selection may depend on the device type only); histories: all sequences of "
+RULE = ("depth 1: all 32 peripheral device types x 8 qualifiers x {SG_IO, iSCSI} x {SCSI(dev), facade(dev) re-attach}; all 32 types x attach made from an except block / a finally block during propagation / a generator resumed by throw() (first attach and re-attach); all 32 types x iSCSI logical unit numbers 255 / 256 / 300 / 16383 / 16384 (the INQUIRY goes to the unit the URL names); all 32 types x caller-made device objects (ordinary, a list of seen commands - empty when new -, __bool__ False, __len__ 0) attached by constructor / call / call after another device; all 32 types x facade subclasses with their own constructor (one that only stores the device, one with another signature) attached and re-attached by call; all 32 types x ADDITIONAL LENGTH {00,1F,5A,5B,5C,9F,FF} (first attach and re-attach); all 32 types x every single bit of INQUIRY bytes 1-7 and 56 set (the selection may depend on the device type only); histories: all sequences of "
         "length <= 3 over device types {00,01,03,04,05,07,08,0E,1F} (9^1+9^2+9^3 per transport, mixing transports at the second step), "
         "first step by construction, later steps by calling the same facade; every history of length 2-3 also with one earlier attach refused by its device (CHECK CONDITION / BUSY to the INQUIRY): it fails and the following attaches are judged as usual. all 32 types x 5 previous sets on a device object that logs every assignment to .opcodes (the set changes in one step, no transient other set). states = distinct (facade device, per-device command set) "
         "configurations; transitions = attach events. Non-trivial = history has a re-attach or a type other than 00.")
@@ -141,7 +141,8 @@ def run_case(case, obs=None):
         for i, step in enumerate(steps):
             tr, dtype, q = step[:3]
             patch = {int(k): v for k, v in (step[3] if len(step) > 3 else {}).items()}
-            rig = harness.Rig(tr, dtype, q, inq_patch=patch)
+            lun = step[6] if len(step) > 6 else 0
+            rig = harness.Rig(tr, dtype, q, inq_patch=patch, **({"lun": lun} if tr == "iscsi" and lun else {}))
             where = "step %d of %r" % (i, steps)
             if len(step) > 4 and step[4]:
                 # an attach whose INQUIRY the device refuses (CHECK CONDITION over SG_IO / BUSY over iSCSI): it fails - and must not
@@ -417,6 +418,11 @@ def run_partition(part, tier, seed):
             for ctx in (1, 2, 3):
                 do([(tr, dtype, 0, {}, 0, ctx)])
                 do([(tr, 0x05, 0), (tr, dtype, 0, {}, 0, ctx)])
+            # iSCSI logical units beyond the single-byte range (the URL names the unit; 255 / 256 / 300 / 16383 / 16384)
+            if tr == "iscsi":
+                for lun in (255, 256, 300, 16383, 16384):
+                    do([(tr, dtype, 0, {}, 0, 0, lun)])
+                    do([(tr, 0x01, 0), (tr, dtype, 0, {}, 0, 0, lun)])
             # facade subclasses with their own constructors: attach and re-attach by call still probe and select
             for fkind in (1, 2):
                 do([(tr, dtype, 0)], fkind)
